@@ -221,12 +221,15 @@ pub fn run_explicit_opt(ew: &Value, want_log: bool, apply_known: bool) -> RunRes
                 Ok(r) => r,
                 Err(e) => return discard(&format!("unexecutable: {}", e), "discard.stringifier_failed"),
             };
-            // the two pure clauses (fixpoint, diagnostics) are asserted for sources that parse
-            // without Warn/Error; for ill-formed sources only behaviour is compared
-            if r1.warn_or_worse.is_empty() {
-                stats.add("probe.fixpoint_checked", 1);
+            // the fixpoint clause is asserted for every source without a Fatal diagnostic, the
+            // diagnostics clause for sources that parse without Warn/Error themselves
+            stats.add("probe.fixpoint_checked", 1);
+            if !r1.warn_or_worse.is_empty() {
+                stats.add("probe.fixpoint_checked_ill_formed", 1);
             }
-            if r1.warn_or_worse.is_empty() && r2.text != r1.text {
+            // (the fixpoint clause holds for ill-formed sources, too: whatever tree the parser
+            // recovered, its printed form must read back as itself)
+            if r2.text != r1.text {
                 return violated(
                     if mangle { "reprint_not_fixpoint_mangled" } else { "reprint_not_fixpoint" },
                     format!("file {}: print(parse(print(parse(t)))) differs from print(parse(t))\n source : {}\n print 1: {}\n print 2: {}", p, s, r1.text, r2.text),
